@@ -1194,8 +1194,14 @@ func (c *Context) quantize(d, v *Decimal, exp int32) Condition {
 		p := int32(d.NumDigits()) - diff
 		if p < 0 {
 			if !d.IsZero() {
+				// Every digit is discarded and the discarded part is less
+				// than half a unit of the new exponent, but it is not zero:
+				// the rounding mode decides between 0 and 1.
 				d.Coeff.SetInt64(0)
 				res = Inexact | Rounded
+				if c.Rounding.ShouldAddOne(&d.Coeff, d.Negative, -1) {
+					d.Coeff.SetInt64(1)
+				}
 			}
 		} else {
 			nc := c.WithPrecision(uint32(p))
